@@ -176,13 +176,16 @@ func (c *aggregateCursor) inNextWindowWithInfo(currRecord *record.Record) error 
 		c.inNextWin = false
 		return nil
 	}
-	if nextRecord.RowNums() == 0 {
-		c.inNextWin = true
+	// a record of another file or series never continues the current window, not even
+	// an empty one: the window carried in the reducers would be merged into the first
+	// window of whatever record follows the empty one.
+	if c.fileInfo != nil && info != c.fileInfo {
+		c.inNextWin = false
 		return nil
 	}
 
-	if c.fileInfo != nil && info != c.fileInfo {
-		c.inNextWin = false
+	if nextRecord.RowNums() == 0 {
+		c.inNextWin = true
 		return nil
 	}
 
